@@ -53,7 +53,11 @@ func (t *c11Tree) add(n *TNode) int {
 	if n.Parent != nil {
 		p = t.idx[n.Parent]
 	}
-	t.file.Blocks = append(t.file.Blocks, TreeBlock{Raw: n.Raw, Hash: n.Hash, Height: n.Block.Height, Parent: p,
+	var txs [][]byte
+	for _, x := range n.Txs {
+		txs = append(txs, x.Serialize())
+	}
+	t.file.Blocks = append(t.file.Blocks, TreeBlock{Raw: n.Raw, Hash: n.Hash, Height: n.Block.Height, Parent: p, Txs: txs,
 		CDHi: n.Block.CumulativeDiff.Hi, CDLo: n.Block.CumulativeDiff.Lo})
 	return i
 }
@@ -282,6 +286,20 @@ func (t *c11Tree) scenarios(tier string) []*Scen {
 		b := append(seq(t, t.weightJ), t.ids(t.weightU)...)
 		add(&Scen{Name: "stale-target-peer-gone", Kind: "fake", Shape: fmt.Sprintf("weight/hA=%d/hB=%d+announce-and-leave", t.weightA, t.weightJ+3),
 			A: seq(t, t.weightA), B: b, Ref: seq(t, t.weightA), FakeChain: seq(t, nMain), Fault: "gone", Param: 300, TimeoutMs: 30000})
+	}
+	// the transactions of the next blocks reach the node as TX packets before the blocks that carry them (the normal order
+	// on a live network): the blocks must still be adopted
+	{
+		var of []int
+		ntx := 0
+		for h := K + 1; h <= K+3 && h <= small; h++ {
+			of = append(of, t.idx[t.main[h]])
+			ntx += len(t.main[h].Txs)
+		}
+		if ntx > 0 {
+			add(&Scen{Name: "fake-txs-relayed-before-their-blocks", Kind: "fake", Shape: "prefix+txs-first", B: seq(t, K), FakeChain: seq(t, small), Ref: seq(t, small),
+				FakeTxOf: of, Fault: "txs-first"})
+		}
 	}
 	inv := map[string]string{}
 	names := []string{"bad-pow", "diff+1", "bad-sig-tx"}
